@@ -553,8 +553,6 @@ def convert_argmax_to_depthwise_conv_and_max_pool(op: Operation, arch, nng) -> O
         identity_quant = QuantizationParameters()
         identity_quant.zero_point = 0
         identity_quant.scale_f32 = 1.0
-        # Add last dimension to ofm shape
-        ofm.shape += [1]
         ofm.ops = []
 
         # Create 1x1 Depthwise convolution with 2**7 weights for each channel to convert precision to 16 bit and shift
@@ -682,6 +680,9 @@ def convert_argmax_to_depthwise_conv_and_max_pool(op: Operation, arch, nng) -> O
 
             memcpy_op = create_memcpy("f{orig_name}_memcpy_2", intermediate_32bit_2x_size, ofm)
             DebugDatabase.add_optimised(op, memcpy_op)
+
+        # The operation that writes the ofm keeps the reduced axis as a depth of 1, the ofm tensor keeps its shape
+        ofm.ops[0].ofm_shapes[0] = Shape4D([1, h, w, 1])
 
     return op
 
